@@ -35,6 +35,10 @@ SLUG = 'simrepo'
 DEST_PREFIXES = ('development/', 'stabilization/', 'hotfix/')
 
 
+class SimHang(BaseException):
+    """The job did not come back (wall-clock watchdog of the C13 tap)."""
+
+
 class SimKill(BaseException):
     """The Bert-E process died (raised from a seam; nothing catches it)."""
 
@@ -806,14 +810,28 @@ class World:
         self.in_job = True
         killed = False
         crashed = None
+        alarm = getattr(self, 'job_alarm', None)
+        if alarm:
+            import signal
+
+            def on_alarm(signum, frame):
+                raise SimHang('job still running after %d s of wall clock '
+                              '(blocked)' % alarm)
+            old_handler = signal.signal(signal.SIGALRM, on_alarm)
+            signal.alarm(alarm)
         try:
             self.berte.put_job(job)
             self.berte.process_task()
+        except SimHang as err:
+            crashed = 'SimHang: %s' % err
         except SimKill:
             killed = True
         except BaseException as err:  # process_task must never raise
             crashed = '%s: %s' % (type(err).__name__, err)
         finally:
+            if alarm:
+                signal.alarm(0)
+                signal.signal(signal.SIGALRM, old_handler)
             self.in_job = False
             self.plan = None
         rec['killed'] = killed
